@@ -11,18 +11,19 @@ PROJ = {
     "TraceEvents": {"kinds": {"tickAll": ["funds", "fok"], "stepB": ["m", "t", "s", "funds", "mkts", "runs", "idxv", "iok", "idxh", "exec"],
                               "stepE": ["m", "t", "s", "mkts", "runs", "idxv", "iok", "idxh", "exec"], "ret": ["batch"],
                               "acc": ["m", "t", "id", "obj", "buy", "mo", "px", "vol", "ttl", "mp", "p0", "run"],
-                              "round": ["m", "t", "fills", "p0"], "abort": None, "init": []}},
+                              "round": ["m", "t", "fills", "p0"], "abort": None, "init": [], "dupreg": ["m", "refused"]}},
     "TraceClock": {"kinds": {"tickAllB": ["clocks"], "tick": ["m", "t", "idx"], "tickAll": ["clocks"],
                              "sessB": ["s", "start", "steps", "clocks"], "stepB": ["m", "t", "clocks"],
                              "stepE": ["m", "t", "clocks"], "sessE": ["s", "clocks"], "abort": None}},
     "TraceHooks": {"kinds": {"hook": None, "ret": ["batch"], "acc": ["m", "t", "tm", "obj", "req", "mo"], "canc": ["m", "t", "tm"],
-                             "round": ["fills"], "sessB": ["s", "start"], "sessE": ["s"], "stepB": ["m", "t"], "stepE": ["m", "t"],
+                             "round": ["m", "t", "fills"], "sessB": ["s", "start"], "sessE": ["s"], "stepB": ["m", "t"], "stepE": ["m", "t"],
                              "simE": [], "abort": None}},
     "TraceLog": {"kinds": {"acc": ["m", "id", "t", "a", "buy", "mo", "px", "vol", "ttl"], "canc": ["m", "id", "t", "ovol"],
-                           "round": ["fills"], "tick": ["m", "t", "exp"], "lp": ["kind", "ref", "f"], "lw": ["kind", "via"],
+                           "round": ["m", "t", "fills"], "tick": ["m", "t", "exp"], "lp": ["kind", "ref", "f"], "lw": ["kind", "via"], "flush": [],
                            "stepB": ["s"], "stepE": ["s"], "simB": [], "sessB": ["s"], "sessE": ["s"], "simE": [], "abort": None}},
     "TraceSched": {"kinds": {"sessB": ["s"], "stepB": ["m", "s", "t"], "stepE": ["m"], "consult": ["a", "hft"],
                              "ret": ["a", "hft", "batch"], "acc": ["a", "m"], "canc": ["a", "m"], "round": ["m", "fills"], "abort": None}},
+    "TraceOwner": {"kinds": {"ret": ["a", "batch"], "acc": ["a", "m", "id", "obj"], "abort": None}},
     "TraceLedger": {"kinds": {"init": ["hold"], "acc": ["a", "m", "id"], "canc": ["a", "m", "id"], "round": ["fills"],
                               "applied": ["n", "hold"], "cb": None, "stepE": ["hold"], "simE": ["hold"], "abort": None}},
 }
@@ -44,7 +45,7 @@ def project(run, spec):
                 d[f] = e.get(f, -1)
             ev.append(d)
     init = next((e for e in run["ev"] if e["k"] == "init"), None)
-    hdr = {"ev": ev}
+    hdr = {"ev": ev, "twin": "nolog" in run, "nolog": run.get("nolog", [])}
     if init is not None:
         hdr["cs"] = init["cs"]
         hdr["sess"] = init["sess"]
@@ -99,6 +100,7 @@ def validate(runs, spec, tag=None):
 N_RUNS = {"quick": 150, "thorough": 3000}
 # property -> list of (trace spec, verdict key); "book" = per-market histories of the runs through TraceBook
 SPECS_FOR = {
+    "C04": [("TraceOwner", "C04")],
     "C05": [("TraceLedger", "C05")],
     "C11": [("TraceLedger", "C11")],
     "C09": [("TraceSched", "C09"), ("book", "C09")],
@@ -111,7 +113,7 @@ SPECS_FOR = {
     "C17": [("TraceEvents", "C17")],
 }
 EVENT_PROPS = ("C14", "C15", "C16", "C17")
-EVENT_KINDS = {"C14": ("fshock", "mistake", "mixed", "index"), "C15": ("plimit", "mixed", "plimit"), "C16": ("halt", "mixed", "haltx", "halt"),
+EVENT_KINDS = {"C14": ("fshock", "mistake", "mixed", "index"), "C15": ("plimit", "mixed", "plimit"), "C16": ("halt", "mixed", "haltx", "halt", "haltm"),
                "C17": ("index", "fshock", "index")}
 N_EVENT_RUNS = {"quick": 150, "thorough": 3000}
 RULES = {
@@ -136,7 +138,7 @@ def build_runs(tier, seed, prop):
         if prop == "C17":
             runs += drive_events.negative_index_runs(seed)
         return runs
-    runs = drive_run.generate(N_RUNS[tier], sub_seed(seed, "runs"))
+    runs = drive_run.generate(N_RUNS[tier], sub_seed(seed, "runs"), twin=(prop == "C13"))
     for r in runs:
         r["src"] = "random-config"
     runs += scenarios_run.runs_for(prop, tier, seed)
@@ -151,6 +153,11 @@ def build_runs(tier, seed, prop):
     if prop == "C06":
         from . import drive_events
         runs += drive_events.generate(N_EVENT_RUNS[tier] // 3, sub_seed(seed, "events", prop), kinds=("fshock", "index", "mixed"))
+    if prop in ("C05", "C10", "C11", "C13"):
+        # ledger, log records, callbacks and user hooks while the built-in events act (a halt inside a round of several fills,
+        # orders rewritten before acceptance, shocks)
+        from . import drive_events
+        runs += drive_events.generate(N_EVENT_RUNS[tier] // 3, sub_seed(seed, "events", prop), kinds=("halt", "haltx", "mixed", "plimit", "mistake"))
     if prop == "C09":
         # "no fill in a session without execution, whatever events are configured": runs with the built-in events
         from . import drive_events
@@ -261,6 +268,29 @@ def check(prop, tier, seed, t0):
                 vd = verdicts[i][1].get(key, "ok")
                 cases.append({"verdict": vd, "sig": dict(r.get("sig", {}), src=r.get("src", "?")),
                               "replay": {"group": "run", "cfg": r["cfg"], "seed": r["seed"], "scenario": r.get("scenario")}})
+    if prop == "C13":
+        # the registry API itself: TLC behaviours of PamsHooks replayed into the real Simulator, and random histories,
+        # validated by TraceHookReg
+        from . import replay_hooks
+        hh = replay_hooks.histories(tier, seed)
+        res, rr = replay_hooks.validate(hh)
+        wall += rr.wall
+        counts["registry_histories"] = len(hh)
+        for i, h in enumerate(hh):
+            cases.append({"verdict": res[i + 1][1].get("C13", "ok"), "sig": {"src": "registry:" + h["src"]},
+                          "replay": {"group": "run", "registry": {"idx": h["idx"], "ev": h["ev"], "src": h["src"]}}})
+        counts["registry_reference_layer_differences"] = sum(1 for i in range(len(hh)) if res[i + 1][1].get("REF", "ok") != "ok")
+    if prop == "C10":
+        # the Logger API itself: TLC behaviours of PamsLogger replayed into the real Logger, and random histories,
+        # validated by TraceLogger
+        from . import replay_logger
+        lh = replay_logger.histories(tier, seed)
+        res, rr = replay_logger.validate(lh)
+        wall += rr.wall
+        counts["logger_histories"] = len(lh)
+        for i, h in enumerate(lh):
+            cases.append({"verdict": res[i + 1][1].get("C10", "ok"), "sig": {"src": "logger:" + h["src"]},
+                          "replay": {"group": "run", "logger": {"ev": h["ev"], "src": h["src"]}}})
     viol, known, lines = judge.judge(prop, cases)
     for ln in lines:
         print(ln)
@@ -274,10 +304,17 @@ def check(prop, tier, seed, t0):
         "traces_validated_against_impl": len(runs) + counts.get("market_histories", 0),
         "samples": [sample_run(r) for r in runs[:2]],
         "evaluations": nev, "distinct_nontrivial": nontriv, "rule": RULES[prop], "exhaustive": bool(design and design[0]["states"] > 0),
+        "exhaustive_scope": "the bounded design models (TLC breadth-first search ran to completion); recorded runs are sampled",
         "design_models": design, "runs": len(runs), "aborted_runs": aborted,
         "trace_validation_wall_s": round(wall, 1),
     }
     cov.update(counts)
+    if prop == "C13":
+        from . import replay_hooks
+        cov["spec_to_code_replay_registry"] = dict(replay_hooks.last_stats)
+    if prop == "C10":
+        from . import replay_logger
+        cov["spec_to_code_replay_logger"] = dict(replay_logger.last_stats)
     if prop in ("C05", "C06", "C09", "C10", "C11"):
         from . import replay_run
         cov["spec_to_code_replay"] = dict(replay_run.last_stats)
@@ -312,6 +349,24 @@ def replay(prop, path):
     from . import drive_run, scenarios_run
     doc = json.load(open(path))
     rp = doc["replay"]
+    if rp.get("logger"):
+        from . import replay_logger
+        h = replay_logger.replay_history(rp["logger"])
+        res, _ = replay_logger.validate([h])
+        vd = res[1][1].get(prop, "ok")
+        print("replay %s via TraceLogger: %s" % (prop, vd))
+        if vd != "ok":
+            print("VIOLATION property=%s replay=%s" % (prop, path))
+        return 1 if vd != "ok" else 0
+    if rp.get("registry"):
+        from . import replay_hooks
+        h = replay_hooks.replay_history(rp["registry"])
+        res, _ = replay_hooks.validate([h])
+        vd = res[1][1].get(prop, "ok")
+        print("replay %s via TraceHookReg: %s" % (prop, vd))
+        if vd != "ok":
+            print("VIOLATION property=%s replay=%s" % (prop, path))
+        return 1 if vd != "ok" else 0
     if rp.get("scenario"):
         run = scenarios_run.rerun(rp["scenario"])
     else:
